@@ -178,6 +178,7 @@ func runTScenario(t *testing.T, raw []byte) (lines []M, problem string) {
 				return mkString(f.R), buildErrX(f.E)
 			}
 			cancels := map[int]context.CancelFunc{}
+			acqCancels := map[int]context.CancelFunc{}
 			results := map[int]failsafe.ExecutionResult[string]{}
 			var wg sync.WaitGroup
 			for _, e := range sc.Env {
@@ -216,7 +217,8 @@ func runTScenario(t *testing.T, raw []byte) (lines []M, problem string) {
 									}
 									time.Sleep(unit)
 								}
-								rec.tlineF(func() M { r, err := er.Get(); return M{"ev": "GetRet", "x": x, "r": resName(r), "e": projectErrT(err)} }, nil)
+								r, err := er.Get() // (never block while holding the recorder)
+								rec.tline(M{"ev": "GetRet", "x": x, "r": resName(r), "e": projectErrT(err)}, nil)
 							}()
 							go func() {
 								defer wg.Done()
@@ -256,6 +258,19 @@ func runTScenario(t *testing.T, raw []byte) (lines []M, problem string) {
 						cancelGaps.Delete(any(er))
 						rec.tline(M{"ev": "CancelRet", "x": x}, nil)
 					}(e.X)
+				case "BhAcquire":
+					actx, acancel := context.WithCancel(context.Background())
+					acqCancels[e.X] = acancel
+					rec.tline(M{"ev": "BhAcquireCall", "id": e.Id, "w": e.X}, nil)
+					wg.Add(1)
+					go func(w int, id string) {
+						defer wg.Done()
+						err := bs.bulks[id].AcquirePermit(actx)
+						rec.tline(M{"ev": "BhAcquired", "w": w, "ok": err == nil}, nil)
+					}(e.X, e.Id)
+				case "BhAcqCancel":
+					rec.tline(M{"ev": "BhAcqCancel", "w": e.X}, nil)
+					acqCancels[e.X]()
 				case "BhTake":
 					rec.tline(M{"ev": "BhTakeCall", "id": e.Id}, nil)
 					ok := bs.bulks[e.Id].TryAcquirePermit()
